@@ -472,7 +472,7 @@ pub fn run(ctx: Ctx) -> i32 {
         start_watchdog();
     }
     let bad = run_in_workers(&report, 16, std::time::Duration::from_secs(tier.pick(900, 14400)), &|report: &Report| {
-        let cfg = ValueCfg { big_weight: 0, max_big: 300, max_big_elems: 300, conformance: false, out_of_root: true, cap_open_types: true, hard_limit: None };
+        let cfg = ValueCfg { big_weight: 0, max_big: 300, max_big_elems: 300, conformance: false, out_of_root: true, cap_open_types: true, hard_limit: None, foreign_chars: false };
         let mut local = Local::default();
         let run_cases = |local: &mut Local, purpose: &str, shard: u64, n: u32, strat: BoxedStrategy<Case>| {
             if report.too_many_violations() {
@@ -651,7 +651,7 @@ pub fn fuzz_one(zoo: &Zoo, data: &[u8]) -> Option<(String, String, J)> {
 /// seed corpus for the decoders target: valid UPER and protobuf encodings of generated values of
 /// every `step`-th zoo type, in the input format of `fuzz_one`
 pub fn fuzz_corpus(zoo: &Zoo, dir: &std::path::Path, seed: u64, step: usize) -> usize {
-    let cfg = ValueCfg { big_weight: 0, max_big: 60, max_big_elems: 60, conformance: false, out_of_root: true, cap_open_types: true, hard_limit: None };
+    let cfg = ValueCfg { big_weight: 0, max_big: 60, max_big_elems: 60, conformance: false, out_of_root: true, cap_open_types: true, hard_limit: None, foreign_chars: false };
     let n = zoo.entries.len();
     let mut written = 0;
     for ei in (0..n).step_by(step.max(1)) {
